@@ -1,15 +1,19 @@
-(* Legacy.v — models of the PINNED (pre-fix) generator fragments and machine-checked witnesses that
-   the full-strength property is false of them.  Each witness was replayed on the real pinned code
-   (see /verif/known_findings.json, status "fixed") and is kept as a regression corpus entry. *)
-Require Import Strum.Model.Repr Strum.Proofs.ReprP.
-Open Scope Z_scope.
+(* Legacy.v — models of the PINNED (pre-fix) generator fragments and machine-checked witnesses that the
+   full-strength property is false of them.  Each witness was replayed on the real pinned code (see
+   /verif/known_findings.json, status "fixed", and DESIGN.md §8) and is kept as a regression corpus entry.
+   (F1 / C05: `stmt_C05_legacy_refuted` in Spec/Statements.v, proved in Proofs/IterP.v, about `it_nth_legacy`.) *)
+Require Import Strum.Model.Repr Strum.Proofs.ReprP Strum.Model.FromStr Strum.Model.Misc Strum.Model.Paths Strum.Model.Reject.
+Local Open Scope Z_scope.
+Local Open Scope string_scope.
 
 Definition lg_variant id ms := {| v_ident := s_ id; v_fields := FUnit; v_metas := ms; v_discr := None; v_dmetas := [] |}.
+Definition lg_enum metas vs := {| i_kind := KEnum; i_ident := s_ "E"; i_lifetimes := 0; i_tparams := 0; i_cparams := 0;
+  i_vis := VInherited; i_metas := metas; i_dmetas := []; i_repr := None; i_variants := vs |}.
 Definition lg_item := {| i_kind := KEnum; i_ident := s_ "E"; i_lifetimes := 0; i_tparams := 0; i_cparams := 0;
   i_vis := VInherited; i_metas := []; i_dmetas := []; i_repr := Some RU8;
   i_variants := [ lg_variant "X" []; lg_variant "Y" [MDisabled]; lg_variant "Z" [] ] |}.
 
-(* enum E { X, #[strum(disabled)] Y, Z }: rustc numbers Z as 2, the pinned macro matched it against 1 *)
+(* F2 / C06 — enum E { X, #[strum(disabled)] Y, Z }: rustc numbers Z as 2, the pinned macro matched it against 1 *)
 Theorem C06_refuted : exists it c x i nf,
   gen_from_repr_legacy it = Ok c /\ NoDup (rustc_discr (i_variants it)) /\
   run_from_repr c x = Some (i, nf) /\ nth_error (rustc_discr (i_variants it)) i <> Some x.
@@ -18,4 +22,85 @@ Proof.
   - vm_compute. repeat constructor; cbn; intuition discriminate.
   - split; vm_compute; [reflexivity|discriminate].
 Qed.
+
+(* F3 / C16 — the pinned phf branch pushed the spelling and its lower / upper forms unconditionally: for the
+   case-insensitive spelling "blue" the key list has a duplicate, which phf_map! rejects *)
+Theorem C16_refuted_duplicate_keys : has_dup (fs_serialization_legacy_keys true (s_ "blue")) = true.
+Proof. vm_compute. reflexivity. Qed.
+
+(* F8 / C16 — first-wins de-duplication alone: no record of the case-insensitive spellings seen so far (st_ci is
+   cleared after every variant, so `shadowed` never fires across variants) *)
+Definition clear_ci (st : fs_state) : fs_state :=
+  {| st_default_seen := st_default_seen st; st_fall := st_fall st; st_custom_err := st_custom_err st;
+     st_keys := st_keys st; st_ci := []; st_phf := st_phf st; st_arms := st_arms st |}.
+Fixpoint fs_loop_legacy (tp : tprops) (st : fs_state) (idx : nat) (vs : list variant) : res fs_state :=
+  match vs with
+  | [] => Ok st
+  | v :: r => st' <- fs_variant tp st idx v ;; fs_loop_legacy tp (clear_ci st') (S idx) r
+  end.
+Definition gen_from_str_legacy (it : item) : res from_str_code :=
+  vs <- enum_variants it ;;
+  tp <- tprops_of it ;;
+  st <- fs_loop_legacy tp {| st_default_seen := false; st_fall := FNotFound; st_custom_err := false;
+                             st_keys := []; st_ci := []; st_phf := []; st_arms := [] |} 0 vs ;;
+  Ok {| fs_phf := st_phf st; fs_arms := st_arms st; fs_fall := st_fall st; fs_custom_err := st_custom_err st |}.
+(* enum E { #[strum(ascii_case_insensitive, serialize = "Ab")] First, #[strum(serialize = "aB")] Second } *)
+Definition lg_overlap (metas : list emeta) :=
+  lg_enum metas [ lg_variant "First" [MAci true; MSerialize (s_ "Ab")]; lg_variant "Second" [MSerialize (s_ "aB")] ].
+Theorem C16_refuted_overlap : exists plain phf_legacy phf_fixed,
+  gen_from_str (lg_overlap []) = Ok plain /\ gen_from_str_legacy (lg_overlap [EUsePhf]) = Ok phf_legacy /\
+  gen_from_str (lg_overlap [EUsePhf]) = Ok phf_fixed /\
+  run_from_str plain (s_ "aB") = OVariant 0 PUnit /\ run_from_str phf_legacy (s_ "aB") = OVariant 1 PUnit /\
+  run_from_str phf_fixed (s_ "aB") = OVariant 0 PUnit.
+Proof. do 3 eexists. repeat (split; [vm_compute; reflexivity|]). vm_compute; reflexivity. Qed.
+
+(* F4 / C19 — Display on a tuple variant with {0} placeholders expanded to format!: rejected by the checker *)
+Theorem C19_refuted : refs_ok {| c_strum := {| p_abs := true; p_segs := [s_ "strum"] |}; c_binders := [s_ "E"; s_ "f"; s_ "field0"]; c_user := [] |}
+                              [GMacro {| p_abs := false; p_segs := [s_ "format"] |}] = false.
+Proof. vm_compute. reflexivity. Qed.
+
+(* F5 / C20 — EnumProperty: `todo!()` for a literal that is not a string, integer or boolean *)
+Fixpoint bucket_legacy (kvs : list (str * lit)) : res prop_arms :=
+  match kvs with
+  | [] => Ok {| pa_str := []; pa_int := []; pa_bool := [] |}
+  | (k, l) :: r =>
+    match l with
+    | LOther => Panic
+    | _ => bucket r
+    end
+  end.
+Theorem C20_refuted_props : bucket_legacy [(s_ "a", LOther)] = Panic /\ bucket [(s_ "a", LOther)] = Err GBadProp.
+Proof. split; reflexivity. Qed.
+
+(* F6 / C20 — EnumIs: `variant.get_variant_properties().ok()?` turned an attribute error into a silently dropped variant *)
+Fixpoint is_methods_legacy (idx : nat) (vs : list variant) : res (list is_method) :=
+  match vs with
+  | [] => Ok []
+  | v :: r =>
+    rest <- is_methods_legacy (S idx) r ;;
+    match vprops_of v with
+    | Ok p => if vp_disabled p then Ok rest
+              else Ok ({| im_name := (s_ "is_" ++ snakify (v_ident v))%list; im_variant := idx |} :: rest)
+    | _ => Ok rest
+    end
+  end.
+Definition lg_dup := lg_enum [] [ lg_variant "A" [MDisabled; MDisabled]; lg_variant "B" [] ].
+Theorem C20_refuted_is :
+  rule_applies RDupVariantAttr DvEnumIs lg_dup = true /\
+  (exists ms, is_methods_legacy 0 (i_variants lg_dup) = Ok ms /\ length ms = 1%nat) /\
+  (exists e, gen_is lg_dup = Err e).
+Proof. split; [vm_compute; reflexivity|]. split; [eexists; split; vm_compute; reflexivity|]. eexists. vm_compute. reflexivity. Qed.
+
+(* F7 / C20 — default_with: `Ident::new(&value, span)` panics on anything that is not an identifier, e.g. a path *)
+Definition fs_params_dw_legacy (d : str) : res params := if ident_shape d then Ok (PTuple [PWith d]) else Panic.
+Theorem C20_refuted_default_with :
+  fs_params_dw_legacy (s_ "a::b") = Panic /\ path_ok (s_ "a::b") = true /\ path_ok (s_ "1abc") = false.
+Proof. repeat split; vm_compute; reflexivity. Qed.
+
 Print Assumptions C06_refuted.
+Print Assumptions C16_refuted_duplicate_keys.
+Print Assumptions C16_refuted_overlap.
+Print Assumptions C19_refuted.
+Print Assumptions C20_refuted_props.
+Print Assumptions C20_refuted_is.
+Print Assumptions C20_refuted_default_with.
